@@ -153,3 +153,65 @@ package pegnet
 //@   modifies Lhold
 //@   ensures result1 == nil ==> old(Lhold)[*txBatch.Entry.Hash] < 0 && Lhold == upd(old(Lhold), *txBatch.Entry.Hash, height)
 //@   ensures envHealthy && old(Lhold)[*txBatch.Entry.Hash] < 0 ==> result1 == nil
+//@
+//@ // Representation invariant tying the status shown by the API to the ledger (C17):
+//@ // a batch reports an execution height (> 0) iff its effects were applied (relation rows exist).
+//@ spec func statusInv(exec map[factom.Bytes32]int, rel set[factom.Bytes32], hist set[factom.Bytes32]) bool =
+//@     forall h factom.Bytes32 :: (rel[h] ==> hist[h]) && (hist[h] ==> ((exec[h] > 0) <==> rel[h]))
+//@
+//@ // ---- rates, holding, bank ---------------------------------------------------------------------
+//@ ghost var LbankPresent set[int]
+//@ ghost var LbankAmt map[int]int
+//@ ghost var LbankUsed map[int]int
+//@ ghost var LbankReq map[int]int
+//@ spec func lastRatedBefore(rated set[int], h int) int
+//@ spec func ratesOf(m gomap[fat2.PTicker]uint64, rate map[int]map[int]int, h int) bool
+//@ spec func holdInv(hold map[factom.Bytes32]int, hist set[factom.Bytes32]) bool = forall h factom.Bytes32 :: hold[h] >= 0 ==> hist[h]
+//@
+//@ func (*Pegnet).SelectMostRecentRatesBeforeHeight
+//@   trusted
+//@   pure
+//@   ensures !isRejectErr(result2)
+//@   ensures result2 == nil ==> result1 == lastRatedBefore(Lrated, height) && result1 < height && (result1 > 0 ==> Lrated[result1]) && result0 != nil
+//@   ensures result2 == nil ==> (forall x int :: result1 < x && x < height ==> !Lrated[x])
+//@   ensures envHealthy ==> result2 == nil
+//@
+//@ func (*Pegnet).SelectPendingRates
+//@   trusted
+//@   pure
+//@   ensures !isRejectErr(result1)
+//@   ensures result1 == nil ==> result0 != nil && fresh(result0) && ratesOf(result0, Lrate, height) && (len(result0) > 0 <==> Lrated[height])
+//@   ensures envHealthy ==> result1 == nil
+//@
+//@ // decoded from the holding table: fresh objects; every held batch has a history row (holdInv)
+//@ func (*Pegnet).SelectTransactionBatchesInHoldingAtHeight
+//@   trusted
+//@   pure
+//@   ensures !isRejectErr(result1)
+//@   ensures result1 == nil ==> (forall k int :: 0 <= k && k < len(result0) ==> result0[k] != nil && fresh(result0[k]) && result0[k].Entry.Hash != nil && tickersInRange(result0[k].Transactions) && Lhold[*result0[k].Entry.Hash] == height)
+//@   ensures envHealthy ==> result1 == nil
+//@
+//@ func (Pegnet).SelectBankEntry
+//@   trusted
+//@   pure
+//@   nullable q
+//@   ensures !isRejectErr(err)
+//@   ensures err == nil && LbankPresent[height] ==> entry.Height == height && entry.BankAmount == LbankAmt[height]
+//@   ensures err == nil && !LbankPresent[height] ==> entry.Height == 0 - 1 && entry.BankAmount == 0 - 1
+//@   ensures envHealthy ==> err == nil
+//@
+//@ func (Pegnet).InsertBankAmount
+//@   trusted
+//@   nullable q
+//@   modifies LbankPresent, LbankAmt, LbankUsed, LbankReq
+//@   ensures !isRejectErr(result)
+//@   ensures result == nil ==> !old(LbankPresent)[height] && LbankPresent == upd(old(LbankPresent), height, true) && LbankAmt == upd(old(LbankAmt), height, bankAmount) && LbankUsed == upd(old(LbankUsed), height, 0 - 1) && LbankReq == upd(old(LbankReq), height, 0 - 1)
+//@   ensures envHealthy && !old(LbankPresent)[height] ==> result == nil
+//@
+//@ func (Pegnet).UpdateBankEntry
+//@   trusted
+//@   nullable q
+//@   modifies LbankUsed, LbankReq
+//@   ensures !isRejectErr(result)
+//@   ensures result == nil ==> LbankPresent[height] && LbankUsed == upd(old(LbankUsed), height, bankUsed) && LbankReq == upd(old(LbankReq), height, pegRequested)
+//@   ensures envHealthy && LbankPresent[height] ==> result == nil
